@@ -83,6 +83,26 @@ impl<'a> Src<'a> {
         weights.len() - 1
     }
 
+    /// A size with a long tail: mostly small, sometimes a few dozen, now and
+    /// then up to `max` (thresholds such as 32 / 64 / 100 / 256 are crossed).
+    pub fn size(&mut self, max: usize) -> usize {
+        match self.weighted(&[70, 18, 8, 4]) {
+            0 => self.below(9.min(max + 1)),
+            1 => self.below(41.min(max + 1)),
+            2 => self.below(130.min(max + 1)),
+            _ => {
+                // near a power of two or at the top of the range
+                let anchors = [15usize, 16, 17, 31, 32, 33, 63, 64, 65, 100, 127, 128, 129, 255, 256, 257];
+                let a = anchors[self.below(anchors.len())];
+                if self.chance(60) {
+                    self.below(max + 1)
+                } else {
+                    a.min(max)
+                }
+            }
+        }
+    }
+
     pub fn pick<'b, T>(&mut self, items: &'b [T]) -> &'b T {
         &items[self.below(items.len())]
     }
